@@ -233,6 +233,8 @@ def _run_voronoi(X, init, legs, ff, n_trial=4, prefit=False):
         _, exc0 = sel.fit_quiet(s, Xo, None)
         if exc0 is not None:
             return s, sel.StepRecorder(s, _snapshot), [], exc0
+        Xo[...] = X  # the caller refills the same array object in place and passes it again
+        X = Xo
     rec = sel.StepRecorder(s, _snapshot)
     active = []
     ga = getattr(s, "_get_active", None)
@@ -245,6 +247,9 @@ def _run_voronoi(X, init, legs, ff, n_trial=4, prefit=False):
     exc = None
     for i, n in enumerate(legs):
         s.n_to_select = n
+        if i > 0:
+            # a second live VoronoiFPS, fitted on other points of the same number between the legs
+            sibling = sel.sibling_fit("VoronoiFPS", "sample", X, None, dict(initialize=init if not isinstance(init, str) else 0, full_fraction=ff, n_trial_calculation=n_trial))  # noqa: F841
         _, exc = sel.fit_quiet(s, X, None, warm_start=i > 0)
         if exc is not None:
             break
